@@ -71,6 +71,8 @@ type schedSpec struct {
 	Favor   string   `json:"favor,omitempty"` // process name prefix that is starved/favoured
 	Label   string   `json:"label,omitempty"` // hold: a process that arrives at this label is kept there ...
 	Nth     int      `json:"nth,omitempty"`   // ... from its nth arrival on (0: always), until nothing else can run
+	After   []string `json:"after,omitempty"` // window: the held process is let go (and then runs alone for Burst steps) as soon as a client call of one of these ops has returned (empty: any op)
+	Burst   int      `json:"burst,omitempty"`
 }
 
 type progSpec struct {
@@ -692,6 +694,10 @@ func (ep *episode) runClient(c clientSpec, wg *sync.WaitGroup) {
 	for _, o := range c.Ops {
 		ep.g.point("call", "op", o.Op, "q", o.Q, "job", o.Job, "prio", o.Prio, "n", o.N, "b", o.B, "items", o.Items, "kind", o.Kind)
 		ret := ep.exec(o)
+		ep.g.mu.Lock()
+		p.rets++
+		p.lastRet = o.Op
+		ep.g.mu.Unlock()
 		ep.g.note("ret", append([]any{"op", o.Op, "q", o.Q, "job", o.Job, "b", o.B}, ret...)...)
 	}
 	ep.g.mu.Lock()
@@ -715,10 +721,23 @@ type chooser struct {
 	seen   int
 	held   map[string]bool
 	diverged int
+	// window
+	after   map[string]bool
+	burst   int
+	phase   int // 0: waiting for the arrival, 1: holding, 2: burst, 3: over
+	wname   string
+	rets0   map[string]int
+	left    int
 }
 
 func newChooser(s schedSpec, maxStep int) *chooser {
-	c := &chooser{kind: s.Kind, rng: rand.New(rand.NewSource(s.Seed)), replay: s.Choices, prio: map[string]int{}, change: map[int]bool{}, favor: s.Favor, label: s.Label, nth: s.Nth, held: map[string]bool{}}
+	c := &chooser{kind: s.Kind, rng: rand.New(rand.NewSource(s.Seed)), replay: s.Choices, prio: map[string]int{}, change: map[int]bool{}, favor: s.Favor, label: s.Label, nth: s.Nth, held: map[string]bool{}, after: map[string]bool{}, burst: s.Burst, rets0: map[string]int{}}
+	for _, a := range s.After {
+		c.after[a] = true
+	}
+	if c.burst == 0 {
+		c.burst = 8
+	}
 	if s.Kind == "pct" {
 		d := s.Depth
 		if d == 0 {
@@ -731,7 +750,7 @@ func newChooser(s schedSpec, maxStep int) *chooser {
 	return c
 }
 
-func (c *chooser) pick(ps []*gproc) *gproc {
+func (c *chooser) pick(ps []*gproc, all []*gproc) *gproc {
 	c.step++
 	if c.pos < len(c.replay) {
 		// replaying a recorded schedule: every recorded choice is consumed, also the forced ones
@@ -747,7 +766,62 @@ func (c *chooser) pick(ps []*gproc) *gproc {
 	}
 	if len(ps) == 1 {
 		delete(c.held, ps[0].name)
+		if c.kind == "window" && c.phase == 1 && ps[0].name == c.wname {
+			c.phase = 3
+		}
 		return ps[0]
+	}
+	if c.kind == "window" {
+		// a process arriving at the label (for the nth time) is held back while the others run; as soon as a client call (of one
+		// of the given ops) has returned meanwhile, the held process runs alone for a few steps: "X has returned, then a
+		// goroutine that had already passed its check acts"
+		switch c.phase {
+		case 0:
+			for _, p := range ps {
+				if p.at == c.label && p.kind != "client" {
+					c.seen++
+					if c.seen > c.nth {
+						c.phase, c.wname = 1, p.name
+						for _, q := range all {
+							c.rets0[q.name] = q.rets
+						}
+						break
+					}
+				}
+			}
+		case 1:
+			for _, q := range all {
+				if q.kind == "client" && q.name != c.wname && q.rets > c.rets0[q.name] && (len(c.after) == 0 || c.after[q.lastRet]) {
+					c.phase, c.left = 2, c.burst
+					break
+				}
+			}
+		}
+		if c.phase == 2 {
+			for _, p := range ps {
+				if p.name == c.wname {
+					c.left--
+					if c.left <= 0 {
+						c.phase = 3
+					}
+					return p
+				}
+			}
+			c.phase = 3 // the held process is blocked or gone
+		}
+		if c.phase == 1 {
+			var rest []*gproc
+			for _, p := range ps {
+				if p.name != c.wname {
+					rest = append(rest, p)
+				}
+			}
+			if len(rest) > 0 {
+				return rest[c.rng.Intn(len(rest))]
+			}
+			c.phase = 3
+		}
+		return ps[c.rng.Intn(len(ps))]
 	}
 	if c.kind == "hold" {
 		// a process parked at the label stays there while anything else can be released
@@ -999,7 +1073,7 @@ func runEpisode(prog *progSpec) (res epResult) {
 				res.Result = "budget"
 				break
 			}
-			p := ch.pick(ps)
+			p := ch.pick(ps, g.allProcs())
 			res.Diverged = ch.diverged
 			res.Choices = append(res.Choices, p.name)
 			res.Steps++
